@@ -104,6 +104,15 @@ Definition check_sat (c : sat_case) : list string :=
      | _, _ => []
      end
    else []) ++
+  (* validator: a constraint whose version (as the implementation itself split it
+     out) is not a version by the grammar dictates nothing: no version may be
+     accepted under it (c03_satisfied_by_edges: the model answers with the error) *)
+  (if negb (String.eqb (s_rver c) "") then
+     match spec_parse (s_rver c) with
+     | None => tag_if (s_obs c =? 1) "viol:ungrammatical-constraint-version-accepts"
+     | Some _ => []
+     end
+   else []) ++
   (* model vs implementation on the verdict *)
   (match parse_version (s_ver c) with
    | Some v =>
